@@ -333,7 +333,7 @@ def run_harness(c, u, expect, mode, keep, prune_interval, hists, procs, full_eve
         jobs.append(f)
 
     def run(f):
-        rc, out = V.ckbv("c18", [mode, "--in", f], timeout=1500)
+        rc, out = V.ckbv("c18", [mode, "--in", f], timeout=3000)
         return f, rc, out
 
     V.build_harness("c18")
